@@ -44,13 +44,20 @@ pub fn select(profile: &str, seed: u64, count: usize, max_states: usize) -> (Vec
                 "callbacks" => gen::f9_callbacks(&mut rng, &name),
                 "literals" => gen::f11_literal(&mut rng, &name),
                 "twins" => {
-                    let mut d = match i % 4 {
+                    let mut d = match i % 5 {
                         0 => gen::f3_unicode(&mut rng, &name),
                         1 => gen::f1_soup(&mut rng, &name),
                         2 => gen::f2_keywords(&mut rng, &name),
+                        3 => gen::f10_subpat(&mut rng, &name),
                         _ => gen::f6_loops(&mut rng, &name),
                     };
                     d.utf8 = true;
+                    if i % 5 == 3 && rng.chance(1, 2) {
+                        let t = rng.pick_str(&["\\w+", "[^x]", ".", "\\pL", "[^\\x00-\\x7F]+", "(?i)k", "\\S"]);
+                        d.subpats.push((format!("uni{i}"), vmon::spec::Lit::s(t)));
+                        d.push(vmon::spec::Pat::regex(&format!("#(?&uni{i})"), 0).prio(70 + rng.below(9)));
+                        d.normalize();
+                    }
                     d
                 }
                 other => panic!("unknown profile {other}"),
